@@ -3,7 +3,8 @@
    digits is lexed in one piece, where a list of thousands of numerals is not.
    [hex_bytes]: two digits per byte.  [hex_words]: six digits per integer
    (0 .. 2^24-1); a negative or larger integer is never produced by the
-   drivers. *)
+   drivers.  [hex_ints]: two digits for an integer below 255, otherwise "ff"
+   followed by six digits. *)
 From Coq Require Import List ZArith Ascii String.
 Import ListNotations.
 Open Scope Z_scope.
@@ -25,3 +26,25 @@ Fixpoint hex_words (s : string) : list Z :=
     :: hex_words r
   | _ => []
   end.
+
+(* variable-length integers; the fuel (the string length) only makes the
+   recursion structural *)
+Fixpoint hex_ints_fuel (fuel : nat) (s : string) : list Z :=
+  match fuel with
+  | O => []
+  | S f =>
+    match s with
+    | String a (String b r) =>
+      let v := hexval a * 16 + hexval b in
+      if v <? 255 then v :: hex_ints_fuel f r
+      else
+        match r with
+        | String a (String b (String c (String d (String e (String g r'))))) =>
+          (((((hexval a * 16 + hexval b) * 16 + hexval c) * 16 + hexval d) * 16 + hexval e) * 16 + hexval g)
+          :: hex_ints_fuel f r'
+        | _ => []
+        end
+    | _ => []
+    end
+  end.
+Definition hex_ints (s : string) : list Z := hex_ints_fuel (String.length s) s.
